@@ -22,7 +22,9 @@ def prove_lemmas(reg, th, ex_factory):
         trig = ex.spec_expr(L.trigger, st, []).z if L.trigger else None
         L._axiom = z3.ForAll(bound, body, patterns=[trig]) if trig is not None else z3.ForAll(bound, body)
         discharge_all(mine); obs += mine
-        if all(o.status == "proved" for o in mine): th.lemma_axioms.append(L._axiom)
+        if all(o.status == "proved" for o in mine):
+            from .sym import symbols_of
+            th.lemma_axioms_tagged.append((L._axiom, symbols_of(L._axiom) & set(th.sf_axioms)))
     return obs
 
 def verify(reg, quals, verbose=True, cex_bound=None, **kw):
